@@ -167,6 +167,26 @@ func buildPool(sp c17Spec) (*c17Pool, error) {
 	if len(p.claims) == 0 || len(p.evs) == 0 || len(p.jsonBuf) == 0 {
 		return nil, fmt.Errorf("pool too small")
 	}
+	// shared claims-sets of particular make (every program has them): a
+	// decoded profile-1 token in the no-measurements form (empty container
+	// next to the flag), and instances of an extension whose optional group
+	// of claims is embedded BY POINTER and absent, with pointer-receiver
+	// codec methods - the shared object itself reaches the encoding helpers,
+	// and no goroutine has encoded it before the scripts start
+	for v := 0; v < 2; v++ {
+		nm := baseValid(P1, v)
+		nm.Comps, nm.NoMeas = nil, u64p(1)
+		if c, err := psatoken.DecodeClaimsFromCBOR(nm.WireBytes()); err == nil {
+			p.claims = append(p.claims, c)
+		}
+		if b, err := baseValid(P2, v).BuildSetters(); err == nil {
+			c := newPtrEmbClaims()
+			prof, canon := c.Profile, c.CanonicalProfile
+			c.P2Claims = *(b.(*psatoken.P2Claims))
+			c.Profile, c.CanonicalProfile = prof, canon
+			p.claims = append(p.claims, c)
+		}
+	}
 	// shared decoded Evidence of unusual-but-decodable envelopes: no
 	// algorithm in the protected header (empty bucket / empty map), the
 	// algorithm only in the unprotected header, a key id and other
@@ -519,6 +539,18 @@ func runOp(p *c17Pool, o c17Op) string {
 		for _, c := range p.claims {
 			b, err := psatoken.EncodeClaimsToCBOR(c)
 			fmt.Fprintf(&sb, "%s/%x/%v;", errClass(c.Validate()), b, err != nil)
+			// ... and through the other doors to the same encoders: the
+			// JSON encoder, and the marshal METHODS called directly
+			js, jerr := psatoken.EncodeClaimsToJSON(c)
+			fmt.Fprintf(&sb, "%s/%v;", js, jerr != nil)
+			if m, ok := c.(interface{ MarshalCBOR() ([]byte, error) }); ok {
+				b2, err2 := m.MarshalCBOR()
+				fmt.Fprintf(&sb, "%x/%v;", b2, err2 != nil)
+			}
+			if m, ok := c.(json.Marshaler); ok {
+				j2, err2 := m.MarshalJSON()
+				fmt.Fprintf(&sb, "%s/%v;", j2, err2 != nil)
+			}
 		}
 		return sb.String()
 	case "dec-dup":
